@@ -501,6 +501,7 @@ class Fn:
         self.text_hash = None
         self.nlines = 0
         self.value_text = None      # for `const X: T = const V;`
+        self.captures = {}          # closure bodies: captured field index -> source name
         self.parsed = False
         self._raw = None
 
@@ -550,7 +551,12 @@ def parse_body(fn):
     cur = None
     for ln, raw in fn._raw:
         s = raw.strip()
-        if not s or s.startswith(('debug ', 'scope ', '}')):
+        if s.startswith('debug '):
+            m = re.match(r'^debug ([A-Za-z_0-9]+) => .*?\(\*?_1\)?\.(\d+)', s)
+            if m and '(*_1)' in s.split('=>')[1][:12] or (m and s.split('=> ')[1].startswith(('(_1.', '((*_1).', '(*((*_1).', '(*(_1.'))):
+                fn.captures.setdefault(int(m.group(2)), m.group(1))
+            continue
+        if not s or s.startswith(('scope ', '}')):
             continue
         m = _let_re.match(s)
         if m:
